@@ -18,6 +18,12 @@ Lemma event_prob bt t u a b :
        end).
 Proof. destruct bt; eexists; (split; [reflexivity|]); reflexivity. Qed.
 
+(* (a') the event indicator of a case: missing when the observation is missing (never "occurred"), 0 or 1 otherwise *)
+Lemma missing_obs_missing_indicator iv : get_p_obs XR iv NaN = NaN.
+Proof. destruct iv as [lo up le ue]. unfold get_p_obs, iv_within, within_elem. reflexivity. Qed.
+Lemma present_obs_indicator iv o : exists b, get_p_obs XR iv (Fin o) = of_bool XR b.
+Proof. unfold get_p_obs, iv_within, within_elem. cbn. eexists; reflexivity. Qed.
+
 (* ---- Brier score ------------------------------------------------------------------------- *)
 Lemma filter_notnan_F l : filter (fun x => negb (n_isnan XR x)) (F l) = F l.
 Proof. unfold F. induction l as [|x l IH]; [reflexivity|]. cbn [map filter]. cbn [n_isnan XR xops x_isnan negb]. f_equal. exact IH. Qed.
